@@ -5,7 +5,7 @@
 set -u
 SRC="${1:?dir}"; NAME="${2:?name}"; MODE="${3:-integration}"   # MODE: integration | append:<file relative to repo>:<test name filter>
 WT=/tmp/vs_$NAME
-export RUST_BACKTRACE=0 CARGO_NET_OFFLINE=true CARGO_TARGET_DIR=/tmp/vs_target
+export RUST_BACKTRACE=0 CARGO_NET_OFFLINE=true CARGO_TARGET_DIR=${VS_TARGET:-/tmp/vs_target}
 git -C /repo worktree remove --force "$WT" >/dev/null 2>&1
 git -C /repo worktree add -q --detach "$WT" HEAD || { echo "RESULT $NAME worktree-failed"; exit 2; }
 cleanup() { git -C /repo worktree remove --force "$WT" >/dev/null 2>&1; }
